@@ -184,7 +184,9 @@ func bytesp(b []byte) *[]byte { return &b }
 // KeyBlocks: every key format with its matching material, plus wrapped and metadata-only forms.
 func KeyBlocks() []kmip.KeyBlock {
 	attr := []kmip.Attribute{{AttributeName: kmip.AttributeNameCryptographicLength, AttributeValue: int32(128)}}
-	plain := func(m kmip.KeyMaterial) *kmip.KeyValue { return &kmip.KeyValue{Plain: &kmip.PlainKeyValue{KeyMaterial: m, Attribute: attr}} }
+	plain := func(m kmip.KeyMaterial) *kmip.KeyValue {
+		return &kmip.KeyValue{Plain: &kmip.PlainKeyValue{KeyMaterial: m, Attribute: attr}}
+	}
 	raw := bytesp([]byte{1, 2, 3, 4, 5, 6, 7, 8, 9})
 	var out []kmip.KeyBlock
 	for _, f := range []kmip.KeyFormatType{kmip.KeyFormatTypeRaw, kmip.KeyFormatTypeOpaque, kmip.KeyFormatTypePKCS_1, kmip.KeyFormatTypePKCS_8, kmip.KeyFormatTypeX_509, kmip.KeyFormatTypeECPrivateKey} {
